@@ -114,6 +114,8 @@ def run(ctx, pid):
         p = ctx.run([exe, "explore", str(n), str(nprod), str(nmsgs), str(ctx.seed * 10 + mode), t, "2", str(mode)], timeout=3000)
         rs = json.loads(p.stdout.strip().splitlines()[-1])
         mm, nl = monitor(ctx, t, "explore-%d-%d" % (mode, nprod))
+        if mode >= 10:      # grain runs: judged by the monitor only (ActorTurn.tla's step names are the PID's)
+            return ("explore GRAIN mode=%d producers=%d" % (mode, nprod)), rs, mm, nl, t
         # code -> spec conformance at gate granularity: every explored execution must be a behaviour of ActorTurn.tla
         cfg = ctx.tmp("Trace_ActorTurn_%d_%d.cfg" % (mode, nprod))
         with open(cfg, "w") as f:
@@ -141,6 +143,10 @@ def run(ctx, pid):
         return ("explore mode=%d producers=%d" % (mode, nprod)), rs, mm, nl, t
 
     sfuts += [pool.submit(explore, m, np_, nm) for m in modes for (np_, nm) in ((2, 3), (3, 2))]
+    if pid in ("C01", "C03"):
+        # grains have their own copy of the turn machine: 10 = plain grain, 11 = grain whose OnDeactivate fails with a short
+        # deactivate-after (the only way one grainPID is activated twice: re-activation in place)
+        sfuts += [pool.submit(explore, m, 2, 3) for m in ((10, 11) if pid == "C01" else (10,))]
 
     # ---- spec -> code
     def replay(label, dump_fut, nmsgs, ops, nsel):
